@@ -543,7 +543,9 @@ class Machine:
             on = draw(st.sampled_from(
                 ['TST_Echo', 'tst_echo',
                  {'k': 'cpath', 'classname': 'TST_Echo',
-                  'namespace': self.nss[-1], 'host': None}]))
+                  'namespace': self.nss[-1], 'host': None},
+                 {'k': 'cpath', 'classname': 'TST_Echo',
+                  'namespace': self.nss[0], 'host': 'otherhost'}]))
             meth = 'Echo'
         if draw(S._I10) == 0:
             meth = 'Nope'
@@ -552,11 +554,14 @@ class Machine:
             'kwparams': []}}
 
     def _echo_path(self, draw):
+        ns = draw(st.sampled_from(self.nss + [None]))
+        # a path as an earlier operation returned it carries a host
+        host = draw(st.sampled_from([None, None, 'otherhost', 'xhost:5988'])) \
+            if ns is not None else None
         return {'k': 'ipath', 'classname': 'TST_Echo',
                 'keys': [('ID', 'string',
                           draw(st.sampled_from(['e1', 'e1', 'nope'])))],
-                'namespace': draw(st.sampled_from(self.nss + [None])),
-                'host': None}
+                'namespace': ns, 'host': host}
 
     # ---- execution -------------------------------------------------------
 
@@ -616,7 +621,12 @@ class Machine:
                      (rx, ry, step))
             return False
         if rx[0] == 'ok':
-            o = Opts(host=False, defaults=True, ignore=('path',))
+            # embedded_object of a parameter *declaration* is not carried by
+            # CIM-XML (PARAMETER has no such attribute; the qualifier is)
+            o = Opts(host=False, defaults=True,
+                     ignore=('path', 'param_embedded_object')
+                     if op in ('GetClass', 'EnumerateClasses')
+                     else ('path',))
             cx = self._c16(self._rcanon(rx[1], o))
             cy = self._c16(self._rcanon(ry[1], o))
             if cx != cy:
